@@ -5,6 +5,8 @@
 #ifndef _GNU_SOURCE
 #define _GNU_SOURCE
 #endif
+#include <thread>
+#include <cstdlib>
 #include <dlfcn.h>
 #include <cstring>
 #include <cstdio>
@@ -33,11 +35,9 @@ extern "C" void srandom (unsigned s) noexcept { g_seedr = s; }
 static double rd (const std::string& s) { unsigned long long u = std::stoull (s, 0, 16); double d; memcpy (&d, &u, 8); return d; }
 static std::string hx (double x) { unsigned long long u; memcpy (&u, &x, 8); char b[20]; snprintf (b, 20, " %016llx", u); return b; }
 
-int main ()
+static void process (const std::string& line)
 {
-  real_drand48 = (drand48_t) dlsym (RTLD_NEXT, "drand48"); real_srand48 = (srand48_t) dlsym (RTLD_NEXT, "srand48");
-  std::string line;
-  while (std::getline (std::cin, line)) {
+  do {
     std::vector<std::string> t; { std::istringstream is (line); std::string x; while (is >> x) t.push_back (x); }
     if (t.empty()) { std::cout << "err empty\n"; continue; }
     g_uniform.clear(); g_random.clear(); g_ucalls = g_rcalls = 0; g_use_real = false; g_exhausted = 0;
@@ -134,6 +134,17 @@ int main ()
     }
     catch (Exhausted& e) { std::cout << "err throw:" << e.what() << "\n"; }
     catch (std::exception& e) { std::cout << "err throw:" << e.what() << "\n"; }
+  } while (false);
+}
+
+int main ()
+{
+  real_drand48 = (drand48_t) dlsym (RTLD_NEXT, "drand48"); real_srand48 = (srand48_t) dlsym (RTLD_NEXT, "srand48");
+  const bool threaded = getenv ("EPSIC_HARNESS_THREAD") != 0;   // thread mode (the runner's thread pass): every line on a thread of its own
+  std::string line;
+  while (std::getline (std::cin, line)) {
+    if (threaded) { std::thread th ([&]() { process (line); }); th.join (); }
+    else process (line);
   }
   return 0;
 }
